@@ -1,5 +1,6 @@
 import AnySyncModel.Core.Wire
 import AnySyncModel.OCache.LTS
+import AnySyncModel.OCache.Check
 /-! line protocol for area `ocache` (C16); stateful: the model state of the current schedule.
 
   new                                → `ok #<digest>`
@@ -63,8 +64,12 @@ def digest (s : State) : UInt64 :=
 def showEnabled (s : State) : String :=
   showNats ((List.range s.nThr).filter (threadEnabled s))
 
+/-- the invariant of `Spec.lean`, evaluated on the visited state (`inv=ok` or the failing clause) -/
+def showInv (s : State) : String :=
+  match invFail s with | none => "inv=ok" | some n => s!"inv={n}"
+
 def answer (s : State) (t : Tid) : String :=
-  s!"{showPark s (s.thr t)} en={showEnabled s} #{digest s}"
+  s!"{showPark s (s.thr t)} en={showEnabled s} {showInv s} #{digest s}"
 
 def showSt : EState → String
   | .loading => "loading" | .active => "active" | .closing => "closing" | .closed => "closed"
